@@ -57,7 +57,8 @@ Inductive ckind :=
   | KIntro                (* Introspectable.Introspect on the node of the interface *)
   | KUnknown.             (* no such object / interface: error reply from the dispatch task itself *)
 
-Record call := { c_id : nat; c_kind : ckind; c_if : nat; c_spawn : bool; c_script : list op }.
+(* c_noreply: the call carries the NO_REPLY_EXPECTED header flag (fire-and-forget) *)
+Record call := { c_id : nat; c_kind : ckind; c_if : nat; c_spawn : bool; c_noreply : bool; c_script : list op }.
 
 (* observable events (the harness logs exactly these) *)
 Inductive ev :=
@@ -94,7 +95,11 @@ Definition handler (c : call) : list instr :=
 (* dispatch_call_to_iface (and, for the Properties / Introspectable calls, the body of the fdo method it runs) *)
 Definition body (c : call) : list instr :=
   let k := c_if c in
-  let reply := IEv (EvR (c_id c)) in
+  (* the code generated by #[interface] / DispatchResult::new_async skips the reply when the call does not want one;
+     Connection::reply_dbus_error (unknown object) does not look at the flag.  NOTHING ELSE depends on the flag: in
+     particular not the decision to spawn *)
+  let err_reply := IEv (EvR (c_id c)) in
+  let reply := if c_noreply c then ITau else IEv (EvR (c_id c)) in
   match c_kind c with
   | KRef => [IRead (L_iface k)] ++ handler c ++ [reply; IRUnlock (L_iface k)]
   | KMut => [IRead (L_iface k); IRUnlock (L_iface k); IWrite (L_iface k)] ++ handler c ++ [reply; IWUnlock (L_iface k)]
@@ -109,7 +114,7 @@ Definition body (c : call) : list instr :=
       ++ handler c ++ [IWUnlock (L_iface k); reply; IRUnlock (L_props k)]
   | KIntro =>
       [IRead (L_intro k); IRead L_root; IRead (L_iface k); IRUnlock (L_iface k); IRUnlock L_root; reply; IRUnlock (L_intro k)]
-  | KUnknown => [reply]
+  | KUnknown => [err_reply]
   end.
 
 (* dispatch_method_call_try as run by the dispatch task for one message *)
